@@ -7,4 +7,4 @@ trap 'rm -rf "$D"' EXIT
 rsync -a --exclude .git /repo/ "$D"/
 ( cd "$D" && patch -p1 -s < "$PATCH" ) || { echo "PATCH DOES NOT APPLY"; exit 3; }
 export GOFLAGS=-mod=mod GOPROXY=off GOSUMDB=off GOTOOLCHAIN=local; unset GOWORK
-/verif/bin/alliancecheck -repo "$D" -verif /verif -property "$PROPS" -no-evidence | sed "s|$D/||g"
+${ALLIANCECHECK:-/verif/bin/alliancecheck} -repo "$D" -verif /verif -property "$PROPS" -no-evidence | sed "s|$D/||g"
